@@ -176,8 +176,52 @@ S_BINARY = [0, 1, 4, 5, 6, 7, 8, 9, 10]
 S_TEMP = [8, 9, 16]
 
 
-def c09_jobs(tier):
+def _c09_cont(et):
+    k = {"Float64": (0, 2), "Real64": (1, 3), "Float32": (4, 6), "Real32": (5, 7)}[et]
+    return ("tmpl/zz_verif_c09_cont.go.tmpl", f"zz_verif_c09_cont_{et}.go", {
+        "DVTYPE": f"Dense{et}Vector", "SVTYPE": f"Sparse{et}Vector", "DMTYPE": f"Dense{et}Matrix", "KDENSE": str(k[0]), "KSPARSE": str(k[1]),
+        "NEWSCALAR(s)": (f"New{et}(s)" if "64" in et else f"New{et}(float32(s))"),
+        "VerifFINITE": "VerifFinite64", "ETYPE": et})
+
+
+def c09_cont_jobs(tier):
     jobs = []
+    quick = tier == "quick"
+
+    def enc(ds):
+        v = 0
+        for d in reversed(ds):
+            v = v * 4 + d
+        return v
+    vp = [enc(x) for x in ([0, 0, 0], [1, 0, 1], [2, 0, 1], [0, 1, 0])]
+    if not quick:
+        vp += [enc(x) for x in ([1, 1, 1], [3, 0, 1], [0, 0, 1])]
+    for et in (["Float64", "Real64"] if quick else ["Float64", "Real64", "Float32", "Real32"]):
+        for sparse in (0, 1):
+            for op in range(10):
+                if op == 9 and sparse == 0:
+                    continue
+                for alias in (0, 1):
+                    for pa in vp:
+                        pbs = vp[:3] if op in (0, 1, 2, 8) else vp[:1]
+                        if quick:
+                            pbs = pbs[:2]
+                        for pb in pbs:
+                            prs = [vp[0], vp[1]] if alias == 0 and sparse == 1 else [vp[0]]
+                            for pr in prs:
+                                jobs.append({"func": f"verif_C09_vec_{et}", "args": [op, sparse, alias, 3, pa, pb, pr],
+                                             "tag": f"{et} vec op={op} sparse={sparse} alias={alias}"})
+        mp = [enc([0, 0, 0, 0]), enc([1, 0, 0, 1]), enc([0, 2, 1, 0])]
+        for op in range(11):
+            for alias in (0, 1, 2):
+                for pa in mp[:2 if quick else 3]:
+                    for pb in (mp[:2] if op in (0, 1, 2, 8, 10) else mp[:1]):
+                        jobs.append({"func": f"verif_C09_mat_{et}", "args": [op, alias, pa, pb, mp[0]], "tag": f"{et} mat op={op} alias={alias}"})
+    return jobs
+
+
+def c09_jobs(tier):
+    jobs = c09_cont_jobs(tier)
     rts = ["Real64", "Real32"]
     cfgs = [0, 2, 3, 5] if tier == "quick" else list(range(8))
     for rt in rts:
@@ -191,12 +235,14 @@ def c09_jobs(tier):
 
 
 PROPS["C09"] = {
-    "overlay": [RT, SCALAR_COMMON, _scalar_real("Real64"), _scalar_real("Real32")],
+    "overlay": [RT, SCALAR_COMMON, _scalar_real("Real64"), _scalar_real("Real32"), VIEWS, ("root/zz_verif_c03.go", "zz_verif_c03.go")]
+    + [_c09_cont(et) for et in ("Float64", "Real64", "Float32", "Real32")],
     "mode": "fp", "intmode": "int",
     "jobs": c09_jobs,
-    "reach": ["C09-scalar", "C09-pred"],
-    "selftest_vars": ["a", "a.d", "a.h", "b", "b.d", "b.h", "r", "r.d", "r.h", "t", "t.d"],
-    "bounds": {"quick": "scalars: every Xyz/XYZ pair of Real64 and Real32 on fully symbolic jets (any float incl. NaN/Inf/zeros), N<=2, order<=2, "
+    "reach": ["C09-scalar", "C09-pred", "C09-vec", "C09-mat"],
+    "selftest_vars": ["a", "a.d", "a.h", "b", "b.d", "b.h", "r", "r.d", "r.h", "t", "t.d", "s", "v", "w", "v.d", "w.d"],
+    "bounds": {"quick": "containers: every Xyz/XYZ pair of dense vectors, sparse vectors (length 3) and dense matrices (2x2) with Float64/Real64 elements, zero patterns enumerated, receiver distinct or aliasing an operand; "
+                        "scalars: every Xyz/XYZ pair of Real64 and Real32 on fully symbolic jets (any float incl. NaN/Inf/zeros), N<=2, order<=2, "
                         "constant and mismatching-order operand structures, symbolic prior receiver content",
                "thorough": "all eight operand structures"},
     "outside": "",
@@ -204,8 +250,39 @@ PROPS["C09"] = {
 }
 
 
-def c08_jobs(tier):
+def c08_cont_jobs(tier):
     jobs = []
+    quick = tier == "quick"
+
+    def enc(ds):
+        v = 0
+        for d in reversed(ds):
+            v = v * 4 + d
+        return v
+    vp = [enc(x) for x in ([0, 0, 0], [1, 0, 1], [2, 0, 1])]
+    mp = [enc([0, 0, 0, 0]), enc([1, 0, 0, 1])]
+    kinds = [0, 1, 2, 3] if quick else list(range(8))
+    for kind in kinds:
+        for op in range(9):
+            for alias in ((1, 2, 3) if op in (0, 1, 2, 3) else (1,)):
+                for pa in vp:
+                    for pb in (vp[:2] if op in (0, 1, 2) else vp[:1]):
+                        jobs.append({"func": "verif_C08_vec", "args": [op, kind, alias, 3, pa, pb], "tag": f"vec op={op} kind={kind} alias={alias}"})
+        for op in range(8):
+            for alias in ((1, 2, 3) if op in (0, 1, 2, 3, 6) else (1,)):
+                for pa in mp:
+                    for pb in (mp if op in (0, 2, 6) else mp[:1]):
+                        jobs.append({"func": "verif_C08_mat", "args": [op, kind, alias, 2, pa, pb], "tag": f"mat op={op} kind={kind} alias={alias}"})
+        if kind in (0, 1, 4, 5):
+            for op in range(3):
+                for cfg in range(6):
+                    jobs.append({"func": "verif_C08_views", "args": [op, kind, cfg], "tag": f"views op={op} kind={kind} cfg={cfg}"})
+        jobs.append({"func": "verif_C08_dotpanic", "args": [kind]})
+    return jobs
+
+
+def c08_jobs(tier):
+    jobs = c08_cont_jobs(tier)
     cfgs = [0, 2, 3, 5] if tier == "quick" else list(range(8))
     for rt in ["Real64", "Real32"]:
         for op in range(S_NOPS):
@@ -224,12 +301,14 @@ def c08_jobs(tier):
 
 
 PROPS["C08"] = {
-    "overlay": [RT, SCALAR_COMMON, _scalar_real("Real64"), _scalar_real("Real32")],
+    "overlay": [RT, SCALAR_COMMON, _scalar_real("Real64"), _scalar_real("Real32"), VIEWS, ("root/zz_verif_c03.go", "zz_verif_c03.go"),
+                ("root/zz_verif_c08_cont.go", "zz_verif_c08_cont.go")],
     "mode": "fp", "intmode": "int",
     "jobs": c08_jobs,
-    "reach": ["C08-scalar", "C08-temp"],
-    "selftest_vars": ["a", "a.d", "a.h", "b", "b.d", "b.h", "r", "r.d", "r.h", "t", "t.d", "t.h"],
-    "bounds": {"quick": "scalars: every operation of Real64/Real32 with the receiver aliasing the first, the second or both operands, generic and CONCRETE methods, "
+    "reach": ["C08-scalar", "C08-temp", "C08-vec", "C08-mat", "C08-views", "C08-dotpanic"],
+    "selftest_vars": ["a", "a.d", "a.h", "b", "b.d", "b.h", "r", "r.d", "r.h", "t", "t.d", "t.h", "s", "p", "x", "p.d", "x.d", "v", "v.d"],
+    "bounds": {"quick": "containers: element-wise vector (length 3) and matrix (2x2) operations and MdotM with the receiver being the first, second or both operands, dense and sparse Float64/Real64, zero patterns enumerated; "
+                        "MdotM/MaddM/MmulM with receiver and operands being views (Slice, T) of one 3x3 dense parent; MdotV/VdotM alias rejection; scalars: every operation of Real64/Real32 with the receiver aliasing the first, the second or both operands, generic and CONCRETE methods, "
                         "fully symbolic jets N<=2, order<=2 incl. constant operands and mismatching orders; temporaries with arbitrary content",
                "thorough": "all eight operand structures"},
     "outside": "",
